@@ -338,7 +338,12 @@ func (ir *ifdReader) ParseString(t Tag) string {
 		return string(trimNULBuffer(ir.buffer.buf[:t.Size()]))
 	}
 	if t.IsType(tag.TypeASCII) || t.IsType(tag.TypeASCIINoNul) {
-		buf, _ := ir.readTagValue()
+		buf, err := ir.readTagValue()
+		if err != nil {
+			// buf holds at most what the read window had (a value longer
+			// than the window, or cut off by the end of the data)
+			return ""
+		}
 		return string(trimNULBuffer(buf)) // Trim function
 	}
 	if ir.logLevelWarn() {
